@@ -462,6 +462,7 @@ func ParseHdrLine(buf []byte, offs int, h *Hdr, hb PHBodies) (int, ErrorHdr) {
 					if h.state != hContact {
 						// new contact header found
 						contacts.HNo++
+						contacts.LastHVal.Reset()
 					}
 					h.state = hContact
 					n, err = ParseAllContactValues(buf, o, contacts)
@@ -482,6 +483,7 @@ func ParseHdrLine(buf []byte, offs int, h *Hdr, hb PHBodies) (int, ErrorHdr) {
 					if h.state != hPAI {
 						// new contact header found
 						pais.HNo++
+						pais.LastHVal.Reset()
 					}
 					h.state = hPAI
 					n, err = ParseAllPAIValues(buf, o, pais)
